@@ -250,7 +250,7 @@ def write_evidence(prop, tier, seed, stats, wall, rule, exhaustive, bound, assum
         'wall_s': round(wall, 2),
         'violations': stats.n_violations,
     }
-    d = os.path.join(VERIF, 'evidence')
+    d = os.environ.get('VERIF_EVIDENCE_DIR') or os.path.join(VERIF, 'evidence')
     os.makedirs(d, exist_ok=True)
     tmp = os.path.join(d, prop + '.json.tmp')
     with open(tmp, 'w') as f:
@@ -261,7 +261,7 @@ def write_evidence(prop, tier, seed, stats, wall, rule, exhaustive, bound, assum
 
 
 def write_replay(prop, v):
-    d = os.path.join(VERIF, 'replays', prop)
+    d = os.path.join(os.environ.get('VERIF_REPLAY_DIR') or os.path.join(VERIF, 'replays'), prop)
     os.makedirs(d, exist_ok=True)
     name = re.sub(r'[^A-Za-z0-9_.=,+-]', '_', str(v['case_id']))[:120]
     if not name:
